@@ -135,6 +135,7 @@ func main() {
 			rep.Fatalf("load failed: %v", err)
 			return
 		}
+		curProg = p
 		ri.Configs = append(ri.Configs, "linux/amd64 cgo")
 		ri.Packages = len(p.AllPkgs)
 		fmt.Printf("LOADED    repo=%s packages=%d first-party=%d functions=%d (%.1fs)\n", *repo, len(p.AllPkgs), len(p.Pkgs), len(p.AllFunctions()), time.Since(start).Seconds())
